@@ -139,4 +139,43 @@ PROPS = {
             'ASCII only; characters >= 0x80 are not covered by the per-character harnesses',
         ],
     },
+    'C07': {
+        'v_units': [],
+        'k_units': ['quote', 'lexclass'],
+        'level': 'other',
+        'explanation': (
+            'Quoting-decision kernel only. Kani proves, loop-free over EVERY char (complete), that '
+            'yash_quote::char_needs_quoting is true exactly for ; & | ( ) < > $ ` \\ " \' = * ? and all Unicode white space, that '
+            'every character the lexer treats specially (operator characters, blanks, quote and expansion introducers) is in '
+            'that set, and that the lexer\'s own predicates are is_operator_char = { newline & ( ) ; < > | } and '
+            'is_blank = white space but newline -- so the two separately written components agree character by character. '
+            'Bounded: str_needs_quoting on the empty text and one-character texts (# and ~ first). NOT decided: the positional '
+            'rules for longer texts (:~, {..}, [..]), the quoted form itself (Display for Quoted: single quotes / double quotes '
+            'with four escapes) and its re-reading by the lexer, and the state-listing built-ins (alias, typeset -p, trap, ...), '
+            'which need the shell to evaluate its own output.'),
+        'trusted_base': ['Kani 0.68.0 + CBMC 6.11'],
+        'assumptions': [
+            'the always-quote set is my reading of XCU 2.2 plus yash\'s Unicode blanks',
+            'char::is_whitespace of std is used on both sides of the comparison for non-ASCII characters',
+        ],
+    },
+    'C16': {
+        'v_units': ['variable'],
+        'k_units': [],
+        'level': 'proof',
+        'explanation': (
+            'One clause only: "a read-only variable is never modified ... by any means", at the level of one variable. Verus '
+            'proves on the real yash-env/src/variable/main.rs that VariableRefMut::assign_impl returns an error and changes '
+            'NOTHING when the variable is read-only and otherwise replaces exactly value and assignment location (returning the '
+            'old ones), that make_read_only never changes an existing read-only mark and touches nothing else, and that export '
+            'changes only the export flag. NOT decided: scoping and lifetime (VariableSet::get_or_new_impl, unset, '
+            'pop_context_impl, env_c_strings: labelled blocks, while-let over last_mut, drain/rposition/retain with closures are '
+            'outside Verus\'s subset, and the structure (HashMap<String, Vec<big struct>>) is out of CBMC\'s capacity as '
+            'measured on the smaller JobList), the refusal of unset on read-only variables, and which scope the interpreter picks.'),
+        'trusted_base': ['Verus 0.2026.09.13 + Z3', '/verif/tools/vextract.py'],
+        'assumptions': [
+            'source::Location is an opaque placeholder type',
+            'assumed specs: mem::replace, Option::replace',
+        ],
+    },
 }
